@@ -202,7 +202,11 @@ def signature(obs):
                 key += " (capacity %d for %d tokens)" % (nc[0]["cap"], nc[0]["toks"])
         return "delta-panic", key
     if o in ("crash", "timeout"):
-        return "delta-crash", obs.get("how") or o
+        # the known stack overflows need tens of kilobytes of nesting / list length; a crash on a small input
+        # is a different failure and must not hide behind them
+        n = obs.get("len", -1)
+        size = "input >= 16 KiB" if n >= 16384 else "input < 16 KiB"
+        return "delta-crash", "%s (%s)" % (obs.get("how") or o, size)
     return None
 
 
